@@ -11,7 +11,12 @@ import (
 
 func init() {
 	register("C01", &Checker{
-		Run: checkC01,
+		Run: func(p *Prog, l *Ledger) {
+			checkC01(p, l)
+			// the corollary "parentheses that agree with the ladder never change what a program prints" needs the evaluator to
+			// follow the tree it is given: nothing outside its dispatch looks at the kind of a sub-expression (rule of C16/C18)
+			checkNodeKindTests(p, l, "C01/S6-evaluator-follows-tree")
+		},
 		Explain: "Decided by validating the parser against the published grammar, production by production (a recursive-descent parser is its grammar): " +
 			"S1 ladder agreement — from the explored event graph of every expression-level parse function the operand callee, the operator token set of its repetition and the right-operand callee are extracted; the chain assignment → … → unary → call → primary must equal, level for level and in order, the chain of grammer.txt's বাংলা section (terminals mapped to token types through the scanner/keyword tables), and README's 'simplified' ladder must be an order-preserving sub-chain. " +
 			"S2 associativity — on every explored path of a binary level the node built in iteration i has Left = the value carried from iteration i-1 (the first operand for i=1), Operator = the token just matched, Right = the operand parsed in this iteration, and the function returns the last node: left association; assignment parses its right side by calling itself (right association) and rewrites exactly Identifier/ArrayAccess/PropertyAccess targets into the three assignment nodes with the target's own parts; a prefix operator's operand is parsed by unary itself, and both operands of ** are unary (prefix binds tighter than **). " +
